@@ -300,6 +300,168 @@ def extract_helpers(text: str) -> str:
     return ast.unparse(ast.fix_missing_locations(tree)) + "\n"
 
 
+def expand_augassign(text: str) -> str:
+    """Behaviour-preserving for numbers and strings: `x += e` on a plain local name becomes `x = x + e` (same for
+    - * /); names that are ever used as containers in the function (subscripted, appended to, iterated) are left."""
+    tree = ast.parse(text)
+    for fn in [n for n in ast.walk(tree) if isinstance(n, (ast.FunctionDef, ast.AsyncFunctionDef))]:
+        cont = set()
+        for n in ast.walk(fn):
+            if isinstance(n, ast.Subscript) and isinstance(n.value, ast.Name):
+                cont.add(n.value.id)
+            if isinstance(n, ast.Call) and isinstance(n.func, ast.Attribute) and isinstance(n.func.value, ast.Name):
+                cont.add(n.func.value.id)
+            if isinstance(n, (ast.For, ast.comprehension)) and isinstance(n.iter, ast.Name):
+                cont.add(n.iter.id)
+            if isinstance(n, ast.Assign) and isinstance(n.value, (ast.List, ast.Dict, ast.Set, ast.ListComp)):
+                for t in n.targets:
+                    if isinstance(t, ast.Name):
+                        cont.add(t.id)
+            if isinstance(n, ast.AugAssign) and isinstance(n.value, (ast.List, ast.ListComp)) and isinstance(n.target, ast.Name):
+                cont.add(n.target.id)
+            if isinstance(n, (ast.Global, ast.Nonlocal)):
+                cont.update(n.names)
+
+        class T(ast.NodeTransformer):
+            def visit_AugAssign(self, node):
+                if isinstance(node.target, ast.Name) and node.target.id not in cont and isinstance(node.op, (ast.Add, ast.Sub, ast.Mult, ast.Div)):
+                    return ast.copy_location(ast.Assign(targets=[ast.Name(id=node.target.id, ctx=ast.Store())],
+                                                        value=ast.BinOp(left=ast.Name(id=node.target.id, ctx=ast.Load()), op=node.op, right=node.value)), node)
+                return node
+
+        T().visit(fn)
+    return ast.unparse(ast.fix_missing_locations(tree)) + "\n"
+
+
+def len_as_condition(text: str) -> str:
+    """Behaviour-preserving for text, lists, tuples and dictionaries: in a boolean context `len(E) > 0` (`!= 0`,
+    `>= 1`) is written `E` and `len(E) == 0` (`< 1`, `<= 0`) is written `not E` (NumPy arrays are left alone)."""
+    tree = ast.parse(text)
+    ARRAYS = {"weights", "prob", "probabilities", "node_weights", "end_weights", "compatible_idx"}
+
+    def conv(e):
+        if not (isinstance(e, ast.Compare) and len(e.ops) == 1):
+            return e
+        l, op, r = e.left, e.ops[0], e.comparators[0]
+        t = type(op)
+        if isinstance(r, ast.Call) and isinstance(l, ast.Constant):
+            l, r = r, l
+            t = {ast.Lt: ast.Gt, ast.Gt: ast.Lt, ast.LtE: ast.GtE, ast.GtE: ast.LtE}.get(t, t)
+        if not (isinstance(l, ast.Call) and isinstance(l.func, ast.Name) and l.func.id == "len" and len(l.args) == 1 and isinstance(r, ast.Constant) and isinstance(r.value, int)):
+            return e
+        x = l.args[0]
+        if any(isinstance(n, ast.Name) and n.id in ARRAYS for n in ast.walk(x)):
+            return e
+        c = r.value
+        fn = {ast.Lt: lambda n: n < c, ast.LtE: lambda n: n <= c, ast.Gt: lambda n: n > c, ast.GtE: lambda n: n >= c, ast.Eq: lambda n: n == c, ast.NotEq: lambda n: n != c}.get(t)
+        if fn is None:
+            return e
+        zero, rest = fn(0), {fn(n) for n in (1, 2, 3, 5, 1000)}
+        if len(rest) != 1 or zero in rest:
+            return e
+        return x if not zero else ast.UnaryOp(op=ast.Not(), operand=x)
+
+    def ctx(e):
+        if isinstance(e, ast.BoolOp):
+            e.values = [ctx(v) for v in e.values]
+            return e
+        if isinstance(e, ast.UnaryOp) and isinstance(e.op, ast.Not):
+            e.operand = ctx(e.operand)
+            return e
+        return conv(e)
+
+    for n in ast.walk(tree):
+        if isinstance(n, (ast.If, ast.While, ast.IfExp)):
+            n.test = ctx(n.test)
+    return ast.unparse(ast.fix_missing_locations(tree)) + "\n"
+
+
+def fstring_to_concat(text: str) -> str:
+    """Behaviour-preserving: f"a{x}b" without format specifications is written "a" + str(x) + "b"."""
+    tree = ast.parse(text)
+
+    class T(ast.NodeTransformer):
+        def visit_JoinedStr(self, node):
+            self.generic_visit(node)
+            parts = []
+            for v in node.values:
+                if isinstance(v, ast.Constant):
+                    parts.append(v)
+                elif isinstance(v, ast.FormattedValue) and v.conversion == -1 and v.format_spec is None:
+                    parts.append(ast.Call(func=ast.Name(id="str", ctx=ast.Load()), args=[v.value], keywords=[]))
+                else:
+                    return node
+            if not parts:
+                return ast.Constant("")
+            e = parts[0]
+            for q in parts[1:]:
+                e = ast.BinOp(left=e, op=ast.Add(), right=q)
+            return ast.copy_location(e, node)
+
+    T().visit(tree)
+    return ast.unparse(ast.fix_missing_locations(tree)) + "\n"
+
+
+def loops_to_all(text: str) -> str:
+    """Behaviour-preserving: `for x in it: if not P: return False` directly followed by `return True` is written
+    `return all(P for x in it)` (and the dual with any)."""
+    tree = ast.parse(text)
+    for holder in ast.walk(tree):
+        for fld in ("body", "orelse", "finalbody"):
+            block = getattr(holder, fld, None)
+            if not (isinstance(block, list) and block and isinstance(block[0], ast.stmt)):
+                continue
+            i = 0
+            while i + 1 < len(block):
+                a, b = block[i], block[i + 1]
+                if isinstance(a, ast.For) and not a.orelse and len(a.body) == 1 and isinstance(a.body[0], ast.If) and not a.body[0].orelse and len(a.body[0].body) == 1 \
+                        and isinstance(a.body[0].body[0], ast.Return) and isinstance(a.body[0].body[0].value, ast.Constant) and isinstance(a.body[0].body[0].value.value, bool) \
+                        and isinstance(b, ast.Return) and isinstance(b.value, ast.Constant) and isinstance(b.value.value, bool) and b.value.value != a.body[0].body[0].value.value:
+                    inner = a.body[0].body[0].value.value
+                    t = a.body[0].test
+                    if inner is False:
+                        elt = t.operand if isinstance(t, ast.UnaryOp) and isinstance(t.op, ast.Not) else ast.UnaryOp(op=ast.Not(), operand=t)
+                        fn = "all"
+                    else:
+                        elt, fn = t, "any"
+                    tgt = a.target
+                    for x in ast.walk(tgt):
+                        if isinstance(x, ast.Name):
+                            x.ctx = ast.Store()
+                    gen = ast.GeneratorExp(elt=elt, generators=[ast.comprehension(target=tgt, iter=a.iter, ifs=[], is_async=0)])
+                    block[i:i + 2] = [ast.copy_location(ast.Return(value=ast.Call(func=ast.Name(id=fn, ctx=ast.Load()), args=[gen], keywords=[])), a)]
+                i += 1
+    return ast.unparse(ast.fix_missing_locations(tree)) + "\n"
+
+
+def comprehension_to_loop(text: str) -> str:
+    """Behaviour-preserving: `x = [e for t in it if c]` (one generator, plain local x) is written `x = []` + a loop that
+    appends."""
+    tree = ast.parse(text)
+    for holder in ast.walk(tree):
+        for fld in ("body", "orelse", "finalbody"):
+            block = getattr(holder, fld, None)
+            if not (isinstance(block, list) and block and isinstance(block[0], ast.stmt)):
+                continue
+            i = 0
+            while i < len(block):
+                st = block[i]
+                if isinstance(st, ast.Assign) and len(st.targets) == 1 and isinstance(st.targets[0], ast.Name) and isinstance(st.value, ast.ListComp) and len(st.value.generators) == 1 \
+                        and not any(isinstance(n, ast.Name) and n.id == st.targets[0].id for n in ast.walk(st.value)) and not isinstance(holder, ast.Module) and not isinstance(holder, ast.ClassDef):
+                    c = st.value
+                    gen = c.generators[0]
+                    x = st.targets[0].id
+                    body = [ast.Expr(value=ast.Call(func=ast.Attribute(value=ast.Name(id=x, ctx=ast.Load()), attr="append", ctx=ast.Load()), args=[c.elt], keywords=[]))]
+                    for cond in reversed(gen.ifs):
+                        body = [ast.If(test=cond, body=body, orelse=[])]
+                    loop = ast.For(target=gen.target, iter=gen.iter, body=body, orelse=[], type_comment=None)
+                    st.value = ast.List(elts=[], ctx=ast.Load())
+                    block.insert(i + 1, ast.copy_location(loop, st))
+                    i += 1
+                i += 1
+    return ast.unparse(ast.fix_missing_locations(tree)) + "\n"
+
+
 def _judge(args):
     vid, kind, prop, rules, src_root, edits_spec = args
     from sa.check import run_property
@@ -318,6 +480,16 @@ def _judge(args):
             edits.append((file, hoist_conditions))
         elif special == "extract":
             edits.append((file, extract_helpers))
+        elif special == "augexp":
+            edits.append((file, expand_augassign))
+        elif special == "lencond":
+            edits.append((file, len_as_condition))
+        elif special == "fconcat":
+            edits.append((file, fstring_to_concat))
+        elif special == "toall":
+            edits.append((file, loops_to_all))
+        elif special == "comploop":
+            edits.append((file, comprehension_to_loop))
         else:
             edits.append((file, (lambda o, n, c: (lambda t: apply_edit(t, o, n, c)))(old, new, count)))
     try:
@@ -410,7 +582,7 @@ def run(prop: str, seed: int, root: str, coverage_out: dict, jobs: int = 16, onl
     rnd.shuffle(vs)
     tasks = []
     for v in vs:
-        special = {"<unparse>": "unparse", "<rename-locals>": "rename", "<flip-comparisons>": "flip", "<invert-ifelse>": "invert", "<hoist-conditions>": "hoist", "<extract-helpers>": "extract"}.get(v.old)
+        special = {"<unparse>": "unparse", "<rename-locals>": "rename", "<flip-comparisons>": "flip", "<invert-ifelse>": "invert", "<hoist-conditions>": "hoist", "<extract-helpers>": "extract", "<expand-augassign>": "augexp", "<len-as-condition>": "lencond", "<fstring-to-concat>": "fconcat", "<loops-to-all>": "toall", "<comprehension-to-loop>": "comploop"}.get(v.old)
         files = v.file.split(",") if special else [v.file]
         tasks.append((v.vid, v.kind, prop, v.rules, root, [(f, v.old, v.new, v.count, special) for f in files]))
     results = []
